@@ -62,6 +62,7 @@ pub struct Stepper {
     pub probes: Probes,
     pub tick_err: Option<String>,
     sleep_base: u64,
+    custom_dropped_base: u64,
     pub track_custom: bool,
     last_in: usize,
     ticks_since_in: u64,
@@ -110,6 +111,7 @@ impl Stepper {
             probes: Probes::default(),
             tick_err: None,
             sleep_base: kanata_verif_rt::inactive_slept_ns(),
+            custom_dropped_base: kanata_keyberon::layout::VERIF_CUSTOM_EVENTS_DROPPED.load(std::sync::atomic::Ordering::Relaxed),
             track_custom: false,
             last_in: usize::MAX,
             ticks_since_in: 0,
@@ -402,7 +404,14 @@ impl Stepper {
         }
     }
 
+    /// custom events dropped by keyberon (one per tick is delivered) since this stepper was built
+    /// (hook H5): the precise cause probe behind the `custom-events-collided` tag
+    pub fn custom_events_dropped(&self) -> u64 {
+        kanata_keyberon::layout::VERIF_CUSTOM_EVENTS_DROPPED.load(std::sync::atomic::Ordering::Relaxed) - self.custom_dropped_base
+    }
+
     pub fn finish(&mut self) {
+        self.probes.custom_events_collided += self.custom_events_dropped();
         self.probes.virtual_sleep_ns = kanata_verif_rt::inactive_slept_ns() - self.sleep_base;
     }
 
